@@ -15,7 +15,10 @@ import (
 	"os"
 	"runtime"
 	"strconv"
+	"strings"
 	"sync"
+	"sync/atomic"
+	"time"
 
 	simdjson "github.com/minio/simdjson-go"
 
@@ -210,6 +213,7 @@ func vconc(args []string) error {
 	nops := fs.Int("ops", 30, "operations per goroutine")
 	mult := fs.Int("mult", 4, "goroutines = mult * GOMAXPROCS")
 	prop := fs.String("property", "C20", "property id")
+	hammer := fs.Duration("hammer", 3*time.Second, "duration of the concurrent round-trip phase")
 	fs.Parse(args)
 	consts := liveConsts()
 	n := *mult * runtime.GOMAXPROCS(0)
@@ -299,6 +303,61 @@ func vconc(args []string) error {
 		}
 		bw.Flush()
 		f.Close()
+	}
+	// hammer phase (no hooks installed: nothing but the library synchronises the goroutines): every goroutine round-trips its own
+	// documents through its own Serializer pair in the compressing modes as fast as it can; the package-level encoder / decoder
+	// pools are the only thing they share
+	fmt.Fprintln(os.Stderr, "PHASE hammer: concurrent Serialize/Deserialize round trips on private objects")
+	var hammerBad, hammerOps int64
+	var firstBad atomic.Value
+	deadline := time.Now().Add(*hammer)
+	var hw sync.WaitGroup
+	for g := 0; g < n; g++ {
+		hw.Add(1)
+		go func(g int) {
+			defer hw.Done()
+			defer func() {
+				if p := recover(); p != nil {
+					atomic.AddInt64(&hammerBad, 1)
+					firstBad.CompareAndSwap(nil, fmt.Sprintf("goroutine %d: PANIC %v", g, p))
+				}
+			}()
+			text := []byte(fmt.Sprintf(`{"g":%d,"s":["%s","k","k"],"f":[1.5,-2,18446744073709551615],"o":{"a":null}}`, g, strings.Repeat(string(rune('a'+g%26)), 40+g)))
+			pj, err := simdjson.Parse(text, nil)
+			if err != nil {
+				return
+			}
+			it := pj.Iter()
+			want, _ := it.MarshalJSON()
+			s, d := simdjson.NewSerializer(), simdjson.NewSerializer()
+			var dst *simdjson.ParsedJson
+			for k := 0; time.Now().Before(deadline); k++ {
+				s.CompressMode(simdjson.CompressMode(1 + k%3))
+				b := s.Serialize(nil, *pj)
+				back, derr := d.Deserialize(b, dst)
+				atomic.AddInt64(&hammerOps, 1)
+				if derr != nil {
+					atomic.AddInt64(&hammerBad, 1)
+					firstBad.CompareAndSwap(nil, fmt.Sprintf("goroutine %d round %d mode %d: own blob rejected: %v", g, k, 1+k%3, derr))
+					continue
+				}
+				dst = back
+				bi := back.Iter()
+				got, _ := bi.MarshalJSON()
+				if !bytes.Equal(got, want) {
+					atomic.AddInt64(&hammerBad, 1)
+					firstBad.CompareAndSwap(nil, fmt.Sprintf("goroutine %d round %d mode %d: got %s", g, k, 1+k%3, got))
+				}
+			}
+		}(g)
+	}
+	hw.Wait()
+	rep.Evaluations += hammerOps
+	rep.Count("hammer_round_trips", hammerOps)
+	if hammerBad > 0 {
+		fb, _ := firstBad.Load().(string)
+		rep.Add(run.Mismatch{Property: *prop, Sig: "hammer-roundtrip", Cfg: map[string]interface{}{"goroutines": n, "round_trips": hammerOps, "failed": hammerBad},
+			Want: "every goroutine reads back its own document from its own blob", Got: fb})
 	}
 	rep.Cases = int64(n)
 	rep.Sample(map[string]interface{}{"goroutines": n, "ops_each": *nops, "first_worker_signatures": workers[0].sigs[:3]}, 2)
